@@ -24,7 +24,7 @@ MODES = ["inplace", "inplace", "new", "overufo", "overfile"]
 def generate(rng, tier):
     n = 500 if tier == "quick" else 6000
     for _ in range(n):
-        yield pc.gen_case(rng, tier, MODES)
+        yield pc.gen_case(rng, tier, MODES, empty_features=True)
 
 
 def run_impl(case):
